@@ -322,6 +322,8 @@ def loadIndexLineF (n : Nat) (line : Str) : R (Str × FastaInfo) :=
 
 theorem loadIndexLine_fuel (n : Nat) (line : Str) (h : line.length ≤ n) : loadIndexLine line = loadIndexLineF n line := by
   unfold loadIndexLine loadIndexLineF; rw [splitWords_fuel n line h]
+  split <;> split <;> simp_all
+  all_goals (have hx := ‹∀ (n a b c d : Str), _›; exact absurd rfl (hx _ _ _ _ _ rfl rfl rfl rfl))
 
 def loadIndexF (n : Nat) (lines : List Str) : R (List (Str × FastaInfo)) :=
   lines.foldlM (fun acc l => do let e ← loadIndexLineF n l; pure (dSet acc e.1 e.2)) []
